@@ -4,6 +4,7 @@ import (
 	"context"
 	"flag"
 	"fmt"
+	"go/types"
 	"os"
 	"sort"
 	"strings"
@@ -91,6 +92,8 @@ func main() {
 			}
 		}
 		os.Exit(code)
+	case "mapranges":
+		listMapRanges(p)
 	case "keys":
 		for _, a := range fs.Args() {
 			debugKeys(p, a)
@@ -260,3 +263,25 @@ func init() {
 var debugKeys func(p *Prog, sub string)
 
 var skipReplay bool
+
+func listMapRanges(p *Prog) {
+	var keys []string
+	for k, fn := range p.funcs {
+		if !p.inRepo(fn) || fn.Blocks == nil {
+			continue
+		}
+		for _, b := range fn.Blocks {
+			for _, ins := range b.Instrs {
+				if r, ok := ins.(*ssa.Range); ok {
+					if _, isMap := r.X.Type().Underlying().(*types.Map); isMap {
+						keys = append(keys, fmt.Sprintf("%s  %s", k, p.fset.Position(r.Pos())))
+					}
+				}
+			}
+		}
+	}
+	sort.Strings(keys)
+	for _, k := range keys {
+		fmt.Println(k)
+	}
+}
